@@ -728,6 +728,33 @@ def rule_rescale(ctx):
 
 rule_memorder = layout.make_rule("R-C13-memorder", "raw memory-order buffers (as_slice_memory_order, into_raw_vec, as_ptr) of records, targets and kernel matrices are used by position only behind an is_standard_layout() test", lambda f: f["d"]["krate"] in ("linfa_svm", "linfa_kernel"), "linfa-svm and linfa-kernel")
 
+def rule_kernel(ctx):
+    """The decision function evaluates KernelMethod::distance between a query and the support vectors; the solver optimised
+    against the entries of the training kernel matrix.  The model is a solution of the problem it is used for only if the
+    two are the same function of the data.  That is so by construction while the matrix entries are produced by
+    KernelMethod::distance; a separate formula for the matrix - in particular the expanded square |a|^2 + |b|^2 - 2<a,b>,
+    which cancels catastrophically away from the origin - makes them two different functions."""
+    from . import cancel
+    res = RuleResult("R-C13-kernel", "the training kernel matrix is filled from KernelMethod::distance (the function prediction evaluates), not from a separate expanded-square formula")
+    F = ctx.facts()
+    fns = [f for f in F.all_fns() if f["d"]["krate"] == "linfa_kernel" and f["d"]["name"] in ("dense_from_fn", "sparse_from_fn")]
+    if len(fns) < 2:
+        res.missing_anchor("linfa_kernel::dense_from_fn / sparse_from_fn (found %d)" % len(fns))
+    for fn in fns:
+        c = fn["crate"]
+        key = fn_key(fn)
+        calls = [n for n in walk(fn["body"]) if n.get("k") == "MethodCall" and n["name"] == "distance" and "KernelMethod" in ((c.dfn(n.get("def")) or {}).get("path") or "")]
+        exp = cancel.sites(fn)
+        res.instance("%s : %d kernel evaluations through KernelMethod::distance, %d expanded-square expressions" % (key, len(calls), len(exp)))
+        if exp:
+            res.violate("%s : kernel-entry-by-expansion" % key, "kernel matrix entries are computed from `%s` (a %s) instead of KernelMethod::distance: away from the origin the subtraction cancels, so the matrix the solver optimises against is not the kernel that prediction evaluates" % (Render(c).e(exp[0][0])[:70], exp[0][1]), fn_loc(fn, exp[0][0].get("ln")))
+        elif calls:
+            res.ok()
+        else:
+            res.undecided("%s : kernel-source" % key, "the kernel matrix is not filled through KernelMethod::distance and no known formula was recognised", fn_loc(fn))
+    return res.finish(2)
+
+
 def rule_extent(ctx):
     """G_bar (gradient_fixed) is the contribution of the variables at their upper bound to the gradient of *every*
     variable, shrunk ones included: reconstruct_gradient rebuilds the gradient of the shrunk variables from it.  When a
@@ -823,4 +850,4 @@ def rule_extent(ctx):
 
 
 def rules(tier):
-    return [rule_swap, rule_bound, rule_space, rule_sv, rule_sib, rule_snapshot, rule_rho, rule_rescale, rule_memorder, rule_extent]
+    return [rule_swap, rule_bound, rule_space, rule_sv, rule_sib, rule_snapshot, rule_rho, rule_rescale, rule_memorder, rule_extent, rule_kernel]
